@@ -1,4 +1,90 @@
+(* C17 — qarray: element addressing, ownership and iteration.  Property theorems only;
+   the proofs are in Qarray/Proofs.v, the model in Qarray/Model.v (tied to /repo by ./check C17). *)
 From Coq Require Import List NArith.
-From QV Require Import Qarray.Model.
-Theorem placeholder : True. Proof. exact I. Qed.
-Print Assumptions placeholder.
+From QV Require Import Qarray.Model Qarray.Proofs.
+Local Open Scope N_scope.
+
+(* For every count, object size, distribution, tight flag, seg_pages, page size and shepherd count that the
+   code accepts (segment_size > 0 is the code's own assertion), the created layout is well formed ... *)
+Theorem c17_create_layout_wf :
+  forall count obj d tight segpages pagesize nsheps oshep,
+    0 < obj -> 0 < pagesize ->
+    0 < d_segsize (create count obj d tight segpages pagesize nsheps oshep) ->
+    layout_wf (create count obj d tight segpages pagesize nsheps oshep).
+Proof. exact create_layout_wf. Qed.
+Print Assumptions c17_create_layout_wf.
+
+(* ... the unit size is at least the object size, and a multiple of 8 unless tight ... *)
+Theorem c17_unit_size :
+  forall obj tight, obj <= unit_size_of obj tight /\ (unit_size_of obj false) mod 8 = 0.
+Proof. intros; split; [apply unit_size_ge | apply unit_size_padded]. Qed.
+Print Assumptions c17_unit_size.
+
+(* ... qarray_elem yields addresses at least unit_size apart (hence distinct) ... *)
+Theorem c17_elem_distinct_apart :
+  forall a i j, layout_wf a -> i < j -> elem_off a i + d_unit a <= elem_off a j.
+Proof. exact elem_off_mono. Qed.
+Print Assumptions c17_elem_distinct_apart.
+
+(* ... and inside the allocation of segment_count * segment_bytes bytes. *)
+Theorem c17_elem_in_bounds :
+  forall a i, layout_wf a -> i < d_count a ->
+    elem_off a i + d_unit a <= seg_count (d_count a) (d_segsize a) * d_segbytes a.
+Proof. exact elem_in_allocation. Qed.
+Print Assumptions c17_elem_in_bounds.
+
+(* qarray_shepof maps every index to a valid shepherd, for all nine creation-time distributions
+   (random / least-loaded assignments enter as the arbitrary functions oshep, asg) ... *)
+Theorem c17_shepof_valid :
+  forall count obj d tight segpages pagesize nsheps oshep asg i,
+    0 < nsheps -> oshep < nsheps -> (forall s, asg s < nsheps) ->
+    let a := create count obj d tight segpages pagesize nsheps oshep in
+    0 < d_segsize a -> i < count -> shepof nsheps asg a i < nsheps.
+Proof. exact shepof_valid. Qed.
+Print Assumptions c17_shepof_valid.
+
+(* ... consistently with the segment layout: constant on a segment. *)
+Theorem c17_shepof_per_segment :
+  forall nsheps asg a i j, i / d_segsize a = j / d_segsize a -> shepof nsheps asg a i = shepof nsheps asg a j.
+Proof. exact shepof_same_segment. Qed.
+Print Assumptions c17_shepof_per_segment.
+
+(* Iteration visits every index of [start,stop) exactly once, on its owner: ALL_SAME arrays, every sub-range. *)
+Theorem c17_iter_exact_all_same :
+  forall nsheps asg a start stop,
+    d_kind a = ALL_SAME -> 0 < d_segsize a -> start < stop ->
+    iter_exact nsheps asg a start stop (iter nsheps asg a start stop) /\
+    iter_exact nsheps asg a start stop (iter_loop nsheps asg a start stop).
+Proof. exact iter_exact_allsame. Qed.
+Print Assumptions c17_iter_exact_all_same.
+
+(* The full statement (iter_exact for every kind and every sub-range) is FALSE of the faithful model, i.e. of
+   the unchanged code: witnesses (replayed on the real code by ./check C17; known_findings.json). *)
+Theorem c17_strider_midsegment_refuted :
+  exists a start stop,
+    d_kind a = FIXED_HASH /\ start < stop <= d_count a /\ start mod d_segsize a <> 0 /\
+    iter_exact_b 2 (fun _ => 0) a start stop (iter_loop 2 (fun _ => 0) a start stop) 512 = false.
+Proof. exact strider_midsegment_refuted. Qed.
+Print Assumptions c17_strider_midsegment_refuted.
+
+Theorem c17_fields_loopstrider_refuted :
+  exists a start stop,
+    d_kind a = FIXED_FIELDS /\ start < stop <= d_count a /\
+    covers (loop_strider 1 (fun _ => 0) a 0 start stop) (stop - 1) = 0%nat.
+Proof. exact fields_loopstrider_refuted. Qed.
+Print Assumptions c17_fields_loopstrider_refuted.
+
+Theorem c17_fields_midregion_refuted :
+  exists a start stop,
+    d_kind a = FIXED_FIELDS /\ start < stop <= d_count a /\
+    iter_exact_b 2 (fun _ => 0) a start stop (iter 2 (fun _ => 0) a start stop) 2049 = false.
+Proof. exact fields_midregion_refuted. Qed.
+Print Assumptions c17_fields_midregion_refuted.
+
+(* DIST: the shepherd-id slot does not fit behind the elements for every size combination. *)
+Theorem c17_shep_slot_refuted :
+  exists count obj segpages pagesize,
+    let a := create count obj dDIST true segpages pagesize 2 0 in
+    0 < d_segsize a /\ slot_fits a = false.
+Proof. exact shep_slot_refuted. Qed.
+Print Assumptions c17_shep_slot_refuted.
